@@ -20,8 +20,9 @@ from outrank import core_ranking as cr
 from outrank import task_ranking as tr
 
 ID = 'C13'
-RULE = ('Function level: row sequences (1-4 columns, 1-400 rows, values from small pools so they repeat, empty strings and missing '
-        'symbols) and a composition of the row count (cut points drawn by Hypothesis; directed class: a value exceeds the rare '
+RULE = ('Function level: row sequences (1-4 columns, 1-400 rows, values from small pools so they repeat, empty strings, missing symbols, values differing '
+        'only by surrounding blanks; column names one of which is a prefix of another, with values whose concatenation with the name '
+        'coincides) and a composition of the row count (cut points drawn by Hypothesis; directed class: a value exceeds the rare '
         'threshold in an early batch and reappears later); thresholds 0-5; missing-symbol sets; compute_coverage / '
         'compute_cardinalities / compute_value_counts are driven batch by batch as compute_batch_ranking does, once with the '
         'generated composition and once unsplit. Exhaustive: every composition (2^(n-1)) of sequences of <=9 rows. Pipeline level: '
@@ -34,7 +35,9 @@ ASSUMPTIONS = ['value counts: exact while fewer distinct values than --max_uniqu
                'generated values are not expected and would be reported',
                'coverage annotation: cases whose exact mean lies within 1e-9 of a rounding tie (x.x5) are excluded and counted']
 
-POOL = ['a', 'b', 'c', 'd', '', '{}', 'NA', '0', '1', 'x y', 'é']
+POOL = ['a', 'b', 'c', 'd', '', '{}', 'NA', '0', '1', 'x y', 'é', 'a ', ' a', '12', '2', 'bc', 'A']
+# column names one of which is a prefix of another: ('f1','12') / ('f11','2') and ('f','bc') / ('fb','c') concatenate equally
+COLNAMES = ['f1', 'f11', 'f', 'fb', 'f2', 'g 1', 'é', 'f12']
 MISSING_SETS = [',{}', 'NA', ',{},NA', 'a,b', '0']
 
 
@@ -43,14 +46,15 @@ def sequence(draw, max_rows=400):
     ncols = draw(st.integers(1, 4))
     n = draw(st.one_of(st.integers(1, 12), st.integers(1, max_rows)))
     cols = {}
+    names = draw(st.lists(st.sampled_from(COLNAMES), min_size=ncols, max_size=ncols, unique=True))
     for j in range(ncols):
         k = draw(st.integers(1, 6))
         vals = draw(st.lists(st.sampled_from(POOL), min_size=k, max_size=k, unique=True))
         if n <= 30:
-            cols[f'f{j}'] = draw(st.lists(st.sampled_from(vals), min_size=n, max_size=n))
+            cols[names[j]] = draw(st.lists(st.sampled_from(vals), min_size=n, max_size=n))
         else:
             seed = draw(st.integers(0, 2**32 - 1))
-            cols[f'f{j}'] = {'vals': vals, 'seed': seed, 'rare': draw(st.lists(st.integers(0, n - 1), max_size=4))}
+            cols[names[j]] = {'vals': vals, 'seed': seed, 'rare': draw(st.lists(st.integers(0, n - 1), max_size=4))}
     return {'n': n, 'cols': cols}
 
 
@@ -188,8 +192,8 @@ def _exhaustive(shard):
     evals = nt = 0
     for rep in range(6):
         n = int(rng.integers(2, 10))
-        cols = {'f0': [['a', 'b', '', 'c'][int(i)] for i in rng.integers(0, 4, size=n)],
-                'f1': [['x', 'x', 'y', '{}'][int(i)] for i in rng.integers(0, 4, size=n)]}
+        cols = {'f1': [['12', 'b', '', 'a ', 'a'][int(i)] for i in rng.integers(0, 5, size=n)],
+                'f11': [['2', '2', 'y', '{}'][int(i)] for i in rng.integers(0, 4, size=n)]}
         bound = int(rng.integers(0, 3))
         hb = [30_000, 2, 3][rep % 3]
         whole = None
@@ -221,8 +225,9 @@ def pipeline_case(draw):
     cols = {}
     for j in range(ncols):
         k = draw(st.integers(1, 5))
-        vals = draw(st.lists(st.sampled_from(['a', 'b', 'c', 'd', '', '{}', 'e f']), min_size=k, max_size=k, unique=True))
-        cols[f'f{j}'] = {'vals': vals, 'seed': draw(st.integers(0, 2**32 - 1)), 'rare': draw(st.lists(st.integers(0, rows - 1), max_size=3))}
+        vals = draw(st.lists(st.sampled_from(['a', 'b', 'c', 'd', '', '{}', 'e f', 'a ', ' a', '12', '2']), min_size=k, max_size=k,
+                             unique=True))
+        cols[['f1', 'f11', 'f2'][j]] = {'vals': vals, 'seed': draw(st.integers(0, 2**32 - 1)), 'rare': draw(st.lists(st.integers(0, rows - 1), max_size=3))}
     cols['label'] = {'vals': ['0', '1'], 'seed': draw(st.integers(0, 2**32 - 1)), 'rare': []}
     return {'seq': {'n': rows, 'cols': cols}, 'ms': sorted(ms), 'task': draw(st.sampled_from(['ranking', 'identify_rare_values'])),
             'bound': draw(st.sampled_from([0, 0, 1, 2, 4])), 'hist_bound': draw(st.sampled_from([2, 3, 30_000]))}
